@@ -140,7 +140,32 @@ func RunFamily(p *symgo.Program, cfgs []Config, opt RunOpts) []Outcome {
 	return out
 }
 
-func runOne(p *symgo.Program, cfg Config, opt RunOpts) (o Outcome) {
+// runOne runs a configuration; with Abstract set, multiplications and divisions of two symbolic
+// operands are first replaced by uninterpreted functions (sound for "holds"); if anything is then
+// violated or inconclusive the configuration is decided again without the abstraction.
+func runOne(p *symgo.Program, cfg Config, opt RunOpts) Outcome {
+	o := runOnce(p, cfg, opt)
+	if !opt.Abstract || !o.Abstracted {
+		return o
+	}
+	redo := false
+	for _, ob := range o.Obls {
+		if ob.Result == "violated" || ob.Result == "inconclusive" {
+			redo = true
+		}
+	}
+	if !redo {
+		return o
+	}
+	opt.Abstract = false
+	o2 := runOnce(p, cfg, opt)
+	o2.WallS += o.WallS
+	o2.Queries += o.Queries
+	o2.SolverS += o.SolverS
+	return o2
+}
+
+func runOnce(p *symgo.Program, cfg Config, opt RunOpts) (o Outcome) {
 	t0 := time.Now()
 	o.Config = cfg
 	st := smt.NewStore()
